@@ -155,7 +155,7 @@ def run(ctx):
     from contracts import c_portrefs
     ctx.verify(c_portrefs.engine(), c_portrefs.VERIFY, min_obligations={c_portrefs.VERIFY[0].key: 10})
     ctx.verify(c_portrefs.resolve_engine(), c_portrefs.VERIFY_RESOLVE, min_obligations={c_portrefs.VERIFY_RESOLVE[0].key: 6})
-    key, obs, info = c_portrefs.update_ref_deps_obligations()
+    key, obs, info = c_portrefs.update_ref_deps_obligations(6 if ctx.tier == "thorough" else 3)
     for u in info.get("unsupported", []):
         ctx.unsupported.append((key, u))
     if len(obs) < 8 and not info.get("unsupported"):
@@ -164,7 +164,7 @@ def run(ctx):
     ctx.assumptions.append("update_ref_deps: one arbitrary element per loop; dependent concatenations unrolled for 1-3 "
                            "parts (bounded in the arity, symbolic in the parts)")
     from contracts import c_conntarget
-    key, obs, info = c_conntarget.export_concat_obligations()
+    key, obs, info = c_conntarget.export_concat_obligations(8 if ctx.tier == "thorough" else 4)
     for u in info.get("unsupported", []):
         ctx.unsupported.append((key, u))
     if len(obs) < 4 and not info.get("unsupported"):
